@@ -44,6 +44,9 @@ type workload struct {
 	groupOf []int
 	exp     []expGroup
 	expSub  []string
+	// meta: the object every PodGroup of the workload inherits labels / annotations from (nil: the
+	// pods themselves, for which OwnerChange schedules are not run)
+	meta *unstructured.Unstructured
 }
 
 type entry struct {
@@ -165,7 +168,7 @@ func sharedDefault(id, apiVersion, kind, prio string, mid ...[2]string) entry {
 	return entry{id: id, gvks: []string{gvkKey(apiVersion, kind)}, build: func(n int, labelled bool) *workload {
 		top := obj(apiVersion, kind, "w", nil, map[string]any{})
 		labelTop(top, labelled)
-		w := &workload{objs: []client.Object{top}}
+		w := &workload{objs: []client.Object{top}, meta: top}
 		last := top
 		for i, m := range mid {
 			o := obj(m[0], m[1], fmt.Sprintf("w-m%d", i), last, map[string]any{})
@@ -200,7 +203,7 @@ func kubeflowEntry(id, apiVersion, kind, field string, types_ []string, withSub 
 		}
 		top := obj(apiVersion, kind, "w", nil, kubeflowSpecs(field, types_, counts))
 		labelTop(top, labelled)
-		w := &workload{objs: []client.Object{top}}
+		w := &workload{objs: []client.Object{top}, meta: top}
 		total := 0
 		for _, c := range counts {
 			total += c
@@ -280,6 +283,7 @@ func rayEntry(id, version, kind string) entry {
 			w.objs = []client.Object{top, cluster}
 		}
 		labelTop(top, labelled)
+		w.meta = top
 		rayPods(w, cluster, n, labelled)
 		e := defaults(top, "train", labelled)
 		e.Min, e.Sub = n, raySub(n-1)
@@ -386,6 +390,7 @@ func groveBuild(top, parent *unstructured.Unstructured, n int, labelled bool, w 
 	e := defaults(gang, "train", labelled)
 	e.Min, e.Sub = n, fmt.Sprintf("clique:%d::", n)
 	_ = top
+	w.meta = gang
 	w.groupOf, w.exp = ones(n), []expGroup{e}
 }
 
@@ -426,6 +431,7 @@ func skip(id, apiVersion, kind string, inner entry, prioProp, queueProp bool) en
 			}
 		}
 		w.objs = append([]client.Object{skipped}, w.objs...)
+		w.meta = skipped
 		if labelled {
 			for i := range w.exp {
 				w.exp[i].NodePool = "pool-a"
@@ -481,7 +487,7 @@ func catalogue() []entry {
 	job := entry{id: "Job", gvks: []string{"batch/v1/Job"}, build: func(n int, labelled bool) *workload {
 		top := obj("batch/v1", "Job", "w", nil, map[string]any{"parallelism": int64(n)})
 		labelTop(top, labelled)
-		w := &workload{objs: []client.Object{top}}
+		w := &workload{objs: []client.Object{top}, meta: top}
 		for i := 0; i < n; i++ {
 			w.pods = append(w.pods, mkPod(fmt.Sprintf("w-%d", i), top, nil, nil, labelled))
 		}
@@ -493,7 +499,7 @@ func catalogue() []entry {
 		top := obj("apps/v1", "Deployment", "w", nil, map[string]any{"replicas": int64(n)})
 		labelTop(top, labelled)
 		rs := obj("apps/v1", "ReplicaSet", "w-rs", top, map[string]any{})
-		w := &workload{objs: []client.Object{top, rs}}
+		w := &workload{objs: []client.Object{top, rs}, meta: top}
 		for i := 0; i < n; i++ {
 			w.pods = append(w.pods, mkPod(fmt.Sprintf("w-rs-%d", i), rs, nil, nil, labelled))
 		}
@@ -504,7 +510,7 @@ func catalogue() []entry {
 		top := obj("batch/v1", "CronJob", "w", nil, map[string]any{})
 		j := obj("batch/v1", "Job", "w-123", top, map[string]any{})
 		labelTop(j, labelled) // the CronJob grouper groups by the Job instance and reads the Job's labels
-		w := &workload{objs: []client.Object{top, j}}
+		w := &workload{objs: []client.Object{top, j}, meta: j}
 		for i := 0; i < n; i++ {
 			w.pods = append(w.pods, mkPod(fmt.Sprintf("w-123-%d", i), j, nil, nil, labelled))
 		}
@@ -514,7 +520,7 @@ func catalogue() []entry {
 	runaijob := entry{id: "RunaiJob", gvks: []string{"run.ai/v1/RunaiJob"}, build: func(n int, labelled bool) *workload {
 		top := obj("run.ai/v1", "RunaiJob", "w", nil, map[string]any{})
 		labelTop(top, labelled)
-		w := &workload{objs: []client.Object{top}}
+		w := &workload{objs: []client.Object{top}, meta: top}
 		for i := 0; i < n; i++ {
 			w.pods = append(w.pods, mkPod(fmt.Sprintf("w-x%d", i), top, nil, nil, labelled))
 		}
@@ -524,7 +530,7 @@ func catalogue() []entry {
 	aml := entry{id: "AmlJob", gvks: []string{"amlarc.azureml.com/v1alpha1/AmlJob"}, build: func(n int, labelled bool) *workload {
 		top := obj("amlarc.azureml.com/v1alpha1", "AmlJob", "w", nil, map[string]any{"job": map[string]any{"options": map[string]any{"envs": map[string]any{"AZUREML_NODE_COUNT": int64(n)}}}})
 		labelTop(top, labelled)
-		w := &workload{objs: []client.Object{top}}
+		w := &workload{objs: []client.Object{top}, meta: top}
 		for i := 0; i < n; i++ {
 			w.pods = append(w.pods, mkPod(fmt.Sprintf("w-%d", i), top, nil, nil, labelled))
 		}
@@ -541,7 +547,7 @@ func catalogue() []entry {
 		labelTop(rev, labelled) // the knative grouper reads the Revision
 		dep := obj("apps/v1", "Deployment", "w-00001-deployment", rev, map[string]any{})
 		rs := obj("apps/v1", "ReplicaSet", "w-00001-deployment-rs", dep, map[string]any{})
-		w := &workload{objs: []client.Object{top, cfg, rev, dep, rs}}
+		w := &workload{objs: []client.Object{top, cfg, rev, dep, rs}, meta: rev}
 		for i := 0; i < n; i++ {
 			w.pods = append(w.pods, mkPod(fmt.Sprintf("w-00001-%d", i), rs, map[string]string{"serving.knative.dev/revision": "w-00001"}, nil, labelled))
 		}
@@ -554,7 +560,7 @@ func catalogue() []entry {
 	lws := entry{id: "LeaderWorkerSet", gvks: []string{"leaderworkerset.x-k8s.io/v1/LeaderWorkerSet"}, build: func(n int, labelled bool) *workload {
 		top := obj("leaderworkerset.x-k8s.io/v1", "LeaderWorkerSet", "w", nil, lwsSpec(2))
 		labelTop(top, labelled)
-		w := &workload{objs: []client.Object{top}}
+		w := &workload{objs: []client.Object{top}, meta: top}
 		lwsBuild(top, n, labelled, w)
 		return w
 	}}
@@ -562,7 +568,7 @@ func catalogue() []entry {
 		return entry{id: id, gvks: []string{"jobset.x-k8s.io/v1alpha2/JobSet"}, build: func(n int, labelled bool) *workload {
 			top := obj("jobset.x-k8s.io/v1alpha2", "JobSet", "w", nil, jobSetSpec(order))
 			labelTop(top, labelled)
-			w := &workload{objs: []client.Object{top}}
+			w := &workload{objs: []client.Object{top}, meta: top}
 			jobSetBuild(top, order, n, labelled, w)
 			return w
 		}}
@@ -580,7 +586,7 @@ func catalogue() []entry {
 		top := obj("kubeflow.org/v1beta1", "Notebook", "w", nil, map[string]any{})
 		labelTop(top, labelled)
 		sts := obj("apps/v1", "StatefulSet", "w-sts", top, map[string]any{})
-		w := &workload{objs: []client.Object{top, sts}}
+		w := &workload{objs: []client.Object{top, sts}, meta: top}
 		for i := 0; i < n; i++ {
 			w.pods = append(w.pods, mkPod(fmt.Sprintf("w-%d", i), sts, nil, nil, labelled))
 		}
